@@ -60,6 +60,45 @@ impl Size {
     }
 }
 
+/// The type-guard idiom of real rule sets: 2-3 rules, each guarded at rule level by
+/// `when Resources.*[ Type == 'T' ] !empty` for a different T (the same query path with different
+/// filters; one T may be absent from the document), with a file-level `let` counting the resources
+/// of that type through a function call, and a parameterised rule called from a guard. These are the
+/// queries that are evaluated against the file scope directly. Rules are inserted at random places.
+pub fn add_type_guard_idiom(u: &mut Choices, file: &mut File, doc: &V) {
+    let mut types = doc_types(doc);
+    types.push("AWS::No::Such".to_string());
+    let n = file.rules.len();
+    let k = (2 + u.below(2)).min(types.len());
+    let rot = u.below(types.len());
+    types.rotate_left(rot);
+    let sel = |ty: &str| Query {
+        head: Head::Key("Resources".into()),
+        parts: vec![Part::Star, Part::Filter(vec![vec![Item::Clause(cl_bin(q_key(&["Type"]), BinOp::Eq, false, Lit::V(V::s(ty))))]])],
+    };
+    let with_call = u.chance(1, 2);
+    if with_call {
+        file.prules.push(PRule {
+            name: format!("tg{}p", n),
+            params: vec!["tgsel".into()],
+            lets: vec![],
+            body: vec![vec![Item::Clause(cl_un(Query { head: Head::Var("tgsel".into()), parts: vec![] }, UnOp::Empty, true))]],
+        });
+    }
+    for (i, ty) in types.iter().take(k).enumerate() {
+        let cnt = format!("tg{}c{}", n, i);
+        file.lets.push(Let { name: cnt.clone(), value: Expr::Call(Call { name: "count".into(), args: vec![Expr::Query { some: false, q: sel(ty) }] }) });
+        let guard: Cnf = if with_call && i % 2 == 1 {
+            vec![vec![Item::PCall { neg: false, name: format!("tg{}p", n), args: vec![Expr::Query { some: false, q: sel(ty) }], msg: None }]]
+        } else {
+            vec![vec![Item::Clause(cl_un(sel(ty), UnOp::Empty, true))]]
+        };
+        let body = vec![vec![Item::Clause(cl_bin(Query { head: Head::Var(cnt), parts: vec![] }, *u.pick(&[BinOp::Ge, BinOp::Eq, BinOp::Lt]), false, Lit::V(V::Int(u.below(3) as i64))))]];
+        let at = u.below(file.rules.len() + 1);
+        file.rules.insert(at, Rule { name: format!("tg{}r{}", n, i), when: Some(guard), lets: vec![], body });
+    }
+}
+
 /// The key-capture idiom: a rule that captures the keys of the resources of one type
 /// (`Resources[ capN | Type == 'T' ] !empty`), a file-level `let` counting the captured keys, and a
 /// rule that refers to the capturing rule and then uses both variables. Appended to `file`.
